@@ -172,7 +172,8 @@ def finish(ctx, meta, cmdline):
             json.dump({'property': ctx.pid, 'finding': o.as_dict(),
                        'replay': './check %s --replay %s' % (ctx.pid, rp),
                        'tree': ctx.prog.root,
-                       'digests': ctx.prog.digests()}, f, indent=1)
+                       'digests': ctx.prog.digests()}, f, indent=1,
+                      default=repr)
         replay_paths.append((o, rp))
     distinct_keys = {o.key for o in ctx.obs}
     nontrivial = {o.key for o in ctx.obs if o.nontrivial}
@@ -229,7 +230,7 @@ def finish(ctx, meta, cmdline):
     out = os.environ.get('TXSA_EVIDENCE_OUT') or os.path.join(
         EVIDENCE_DIR, '%s.json' % ctx.pid)
     with open(out, 'w') as f:
-        json.dump(ev, f, indent=1, sort_keys=True, default=str)
+        json.dump(ev, f, indent=1, sort_keys=True, default=repr)
     print('%s tier=%s: %d obligation instance(s) over %d rule(s), %d hold, '
           '%d fail (%d listed as known finding)' % (
               ctx.pid, ctx.tier, len(ctx.obs), len(rules),
